@@ -118,10 +118,17 @@ _TUPLE_CACHE: dict[str, tuple] = {}
 
 
 class TTuple(Ty):
+    _CANON: dict = {}
+
     def __init__(self, *items: Ty, name: str | None = None):
         self.items = items
-        self.name = name or ("Tup_" + "_".join(
-            "".join(c if c.isalnum() else "" for c in repr(i)) for i in items))
+        key = tuple(repr(i) for i in items)
+        if name is None:
+            # structurally equal tuple types share one datatype (first registered name wins)
+            name = TTuple._CANON.get(key) or ("Tup_" + "_".join(
+                "".join(c if c.isalnum() else "" for c in repr(i)) for i in items))
+        TTuple._CANON.setdefault(key, name)
+        self.name = name
 
     def _dt(self):
         if self.name not in _TUPLE_CACHE:
@@ -451,6 +458,7 @@ class Path:
         self.terms_created: list = []
         self.local_refs: list = []
         self.escaped: set = set()
+        self.call_marks: list = []
 
     def sadd(self, f):
         """Feasibility solver sees only the quantifier-free part of the path condition
